@@ -396,16 +396,34 @@ theorem mania_gradual_never_panics {S : Type} (sk : Skills S) (objs : List Mania
     ((maniaMachine sk objs).nth g k).1 ≠ .panic ∧ ((maniaMachine sk objs).next g).1 ≠ .panic ∧ (maniaMachine sk objs).len g ≠ none :=
   mania_never_panics sk objs ops k
 
-/-- Full statement for taiko. -/
-def TaikoLenNeverUnderflows : Prop :=
-  ∀ (objs : List Bool) (n : Nat),
-    let m := Rosu.Gradual.taikoMachine Rosu.Gradual.listSkills objs
-    m.len (m.nexts (Rosu.Gradual.taikoNew Rosu.Gradual.listSkills objs) n).2 ≠ none
+open Rosu.Gradual in
+/-- …nor the taiko one (every object list; since `/repo` `fix: taiko gradual difficulty counts the
+first two objects like every other hit`). -/
+theorem taiko_gradual_never_panics {S : Type} (sk : Skills S) (objs : List Bool) (ops : List Op) (k : Nat) :
+    let g := (taikoMachine sk objs).exec (taikoNew sk objs) ops
+    ((taikoMachine sk objs).nth g k).1 ≠ .panic ∧ (taikoMachine sk objs).len g ≠ none :=
+  taiko_never_panics sk objs ops k
 
-/-- False of the code (known finding `taiko-gradual-first-two-objects`, shared with C02/C15): on
-`[hit, non-hit, hit, hit]` `len()` after exhaustion computes `total_hits − idx` with
-`idx = total_hits + 1` — a panic with overflow checks, `usize::MAX` without. -/
-theorem taiko_len_never_underflows_fails : ¬ TaikoLenNeverUnderflows := by
+/-- `len()` never underflows, however many `next` calls have been made — stated for a machine. -/
+def TaikoLenNeverUnderflows
+    (mk : List Bool → Rosu.Gradual.Machine (Rosu.Gradual.TaikoGrad (List Nat)) (Nat × List Nat)) : Prop :=
+  ∀ (objs : List Bool) (n : Nat),
+    (mk objs).len ((mk objs).nexts (Rosu.Gradual.taikoNew Rosu.Gradual.listSkills objs) n).2 ≠ none
+
+/-- True of the code as fixed: also after exhaustion `total_hits − idx` is defined (`idx ≤ total_hits`). -/
+theorem taiko_len_never_underflows :
+    TaikoLenNeverUnderflows (Rosu.Gradual.taikoMachine Rosu.Gradual.listSkills) := by
+  intro objs n
+  obtain ⟨j, hj⟩ := Rosu.Gradual.taiko_nexts_st Rosu.Gradual.listSkills objs n _ 0
+    (Or.inl (Rosu.Gradual.taikoNew_canon _ objs))
+  rw [Rosu.Gradual.taiko_len_eq_remaining _ objs _ j hj]
+  simp
+
+/-- False of the code before the fix (`Old` machine; the former known finding
+`taiko-gradual-first-two-objects`): on `[hit, non-hit, hit, hit]` `len()` after exhaustion computed
+`total_hits − idx` with `idx = total_hits + 1` — a panic with overflow checks, `usize::MAX` without. -/
+theorem taiko_len_never_underflows_fails :
+    ¬ TaikoLenNeverUnderflows (Rosu.Gradual.Old.taikoMachine Rosu.Gradual.listSkills) := by
   intro h
   have := h [true, false, true, true] 4
   exact this Rosu.Gradual.taiko_len_underflow.2.2
